@@ -11,13 +11,17 @@ pub mod c05;
 pub mod c05_cluster;
 pub mod cluster_cli;
 pub mod c06;
+pub mod c06_net;
 pub mod c07;
+pub mod c07_net;
+pub mod c07_probe;
 pub mod c08;
 pub mod c09;
 pub mod c10;
 pub mod c10_handover;
 pub mod c10_cluster;
 pub mod c10_crash;
+pub mod c10_plainstop;
 pub mod c10_softstop;
 pub mod c11;
 pub mod c12;
@@ -29,7 +33,10 @@ pub mod c17;
 pub mod c18;
 pub mod c19;
 pub mod c20;
+pub mod c20_cluster;
 pub mod cfggen;
+pub mod hubcfg;
+pub mod hubcfg_run;
 
 pub fn get(id: &str) -> Option<Box<dyn Property>> {
     match id {
@@ -53,6 +60,7 @@ pub fn get(id: &str) -> Option<Box<dyn Property>> {
         "C18" => Some(Box::new(c18::C18)),
         "C19" => Some(Box::new(c19::C19)),
         "C20" => Some(Box::new(c20::C20)),
+        "C20C" => Some(Box::new(c20_cluster::Standalone)),
         _ => None,
     }
 }
